@@ -41,6 +41,21 @@ CHECKS["C02"] = dict(
     technique="Lean 4 proof (codec round-trip, omega) + model/implementation correspondence + geometric oracle on real mesher output",
 )
 
+CHECKS["C20"] = dict(
+    category="proof",
+    text=("The quantifier is a finite table, so deciding the whole table is the proof: Model/Exit.lean combines exit codes, the "
+          "ordered fopen guards of the three LoadMesh functions, runSolver's return values and the previous-solution guard — "
+          "all regenerated from the current source by tools/translate_exit.py on every run — and Properties/C20.lean decides "
+          "(decide, kernel) for each solver that over all 2^9 input combinations exit status 0 with output <=> every input "
+          "is present, and otherwise a non-zero exit without output and no unguarded continuation; plus fmesher's main. "
+          "Tied to the binaries by exhaustive fault enumeration on the real tools (every tool x every file it reads x "
+          "{absent, unreadable via setpriv}, analysis preconditions, previous solution, unwritable output, femmcli "
+          "open/analyze/loadsolution/script): each execution is compared with the model's prediction and judged by the "
+          "property's own oracle (exit status, signal, freshness of output files)."),
+    design_ref="DESIGN.md section 3, C20",
+    technique="Lean 4 proof by decide over the complete decision table regenerated from source + exhaustive fault enumeration on the binaries",
+)
+
 NOT_YET = "check not built yet in this round; planned per DESIGN.md section 3 (Lean model + correspondence)"
 
 
